@@ -72,13 +72,13 @@ func panicRules(roots []string) func(p *Prog, r *Report) {
 
 func init() {
 	register("C01",
-		"Structural clauses of 'XML decodes to the documented Map under all options' decided on xmlToMapParser: INFL.cover (attribute keys depend on attrPrefix, lowerCase, snakeCaseKeys and the attribute name; element keys on lowerCase/snakeCaseKeys; text on trimRunes and xmlEscapeCharsDecoder and passes through cast with the decoder's flag; text-key choice on decodeSimpleValuesAsMap; _seq only under includeTagSeqNum), INFL.castflag (structure independent of the cast flag), TABLE.keys (shared key variables, no literals), DECODE.sibling (every decoded child is stored on every path; repeated siblings are append(existing, new)), PAIR.seqnum (the _seq number is a running counter advanced with every child), OPT.setter + PAIR.derived for the options the decoder reads (each setter stores what its documentation says for no, one and more arguments; trimRunes follows disableTrimWhiteSpace), TEXT.nonempty (character data is stored only under a non-emptiness test of the trimmed text that is stored: white space between children never becomes or overwrites a text value), FOLD.total (snake-case folding replaces every hyphen), PANIC.nil/assert/idx on the decoder. Not decided: equality of the produced Map with the documented one (trimming results, collisions, case-folding values)."+levelNote,
+		"Structural clauses of 'XML decodes to the documented Map under all options' decided on xmlToMapParser: INFL.cover (attribute keys depend on attrPrefix, lowerCase, snakeCaseKeys and the attribute name; element keys on lowerCase/snakeCaseKeys; text on trimRunes and xmlEscapeCharsDecoder and passes through cast with the decoder's flag; text-key choice on decodeSimpleValuesAsMap; _seq only under includeTagSeqNum), INFL.castflag (structure independent of the cast flag), TABLE.keys (shared key variables, no literals), DECODE.sibling (every decoded child is stored on every path; repeated siblings are append(existing, new)), PAIR.seqnum (the _seq number is a running counter advanced with every child), OPT.setter + PAIR.derived for the options the decoder reads (each setter stores what its documentation says for no, one and more arguments; trimRunes follows disableTrimWhiteSpace), TEXT.nonempty (character data is stored only under a non-emptiness test of the trimmed text that is stored: white space between children never becomes or overwrites a text value), FOLD.total (snake-case folding replaces every hyphen), TABLE.escape (decoder-side escaping touches exactly the five special characters, '&' first), PANIC.nil/assert/idx on the decoder. Not decided: equality of the produced Map with the documented one (trimming results, collisions, case-folding values)."+levelNote,
 		[]string{"documented option semantics transcribed in rules_infl.go"},
 		ruleInflCover,
 		func(p *Prog, r *Report) { ruleInflCastFlag(p, r) },
 		ruleTableKeys,
 		func(p *Prog, r *Report) { ruleDecodeSibling(p, r, []string{"mxj.xmlToMapParser"}) },
-		ruleSeqCover, ruleCastParsers, rulePairSeqNum,
+		ruleSeqCover, ruleCastParsers, rulePairSeqNum, ruleTableEscape,
 		ruleOptSetterFor([]string{"mxj.attrPrefix", "mxj.lowerCase", "mxj.snakeCaseKeys", "mxj.decodeSimpleValuesAsMap", "mxj.includeTagSeqNum",
 			"mxj.xmlEscapeCharsDecoder", "mxj.disableTrimWhiteSpace", "mxj.castToInt", "mxj.castToFloat", "mxj.castToBool", "mxj.castNanInf", "mxj.checkTagToSkip"}),
 		rulePairDerived,
@@ -96,7 +96,7 @@ func init() {
 		func(p *Prog, r *Report) { ruleWalkArms(p, r, []string{"mxj.marshalMapToXmlIndent"}) })
 
 	register("C03",
-		"Structural clauses of 'encoding a JSON-shaped value as XML preserves all data': WALK.arms (every list member encoded in order under its key, every collected child encoded, AnyXml encodes every member of a list value), TABLE.partition, ESC.flow, TABLE.escape (all five special characters are escaped, '&' first, no early return leaves one unescaped), ERR.path on the Map encoders and AnyXml/AnyXmlIndent (an element encoder error cannot be overwritten or dropped), TAGS.protocol (typestate of the element encoder: every path feasible for a JSON-shaped value writes a complete, properly nested element), TAGS.content (no scalar value or text entry is dropped: a write computed from it precedes the end of the element on every path), OWN.private (the document returned is not reachable from package state — a pooled or cached buffer — so no later call can rewrite it), RENDER.lossless (no value-changing numeric conversion between the encoded value and its text). Not decided: decode(encode(m)) ≅ m; well-formedness for arbitrary key strings."+levelNote,
+		"Structural clauses of 'encoding a JSON-shaped value as XML preserves all data': WALK.arms (every list member encoded in order under its key, every collected child encoded, AnyXml encodes every member of a list value), ROOT.explicit (AnyXml / AnyXmlIndent always name the root when they hand a map to Map.Xml / XmlIndent), TABLE.partition, ESC.flow, TABLE.escape (all five special characters are escaped, '&' first, no early return leaves one unescaped), ERR.path on the Map encoders and AnyXml/AnyXmlIndent (an element encoder error cannot be overwritten or dropped), TAGS.protocol (typestate of the element encoder: every path feasible for a JSON-shaped value writes a complete, properly nested element), TAGS.content (no scalar value or text entry is dropped: a write computed from it precedes the end of the element on every path), OWN.private (the document returned is not reachable from package state — a pooled or cached buffer — so no later call can rewrite it), RENDER.lossless (no value-changing numeric conversion between the encoded value and its text). Not decided: decode(encode(m)) ≅ m; well-formedness for arbitrary key strings."+levelNote,
 		nil,
 		ruleTagProtocol, func(p *Prog, r *Report) { ruleTagContent(p, r, "map") },
 		func(p *Prog, r *Report) { ruleRenderLossless(p, r, []string{"mxj.marshalMapToXmlIndent"}) },
@@ -110,13 +110,13 @@ func init() {
 		})
 
 	register("C04",
-		"Structural clauses of the MapSeq round trip: PAIR.seq (every token kind gets a fresh sequence number that is advanced in the same block; attributes take their index; the child collection skips exactly the attribute and sequence keys), ORDER on the sequence encoder (attributes and children are sorted by sequence number before any write), DECODE.sibling and WALK.arms for the sequence codec, SHAPE.seq (decoder output has the shape the encoder asserts), PANIC.* on both halves, WRAP.compose for BeautifyXml, TAGS.seqprotocol (token-level typestate of the sequence encoder: < name, blank name = quoted value, then either > content </ name > or />, comment / directive / processing-instruction forms; no successful return leaves an open element), TAGS.content (the text entry and the scalar value are written on every path that completes the element, for strings and for the numbers / booleans casting produces), OWN.private (the encoded document is not reachable from package state), SEQ.unwind (every member of a list of same-named children is a sort entry of its own), SEQ.result (the map the decoder returns for an element is written only when the element ends, so nothing collected for it is dropped), SEQ.types (every typed read of a '#seq' entry accepts int and float64), TEXT.nonempty (character data is recorded only under a non-emptiness test of the trimmed text that is stored, so indentation never replaces an element's text), RENDER.lossless. Not decided: token-stream equality."+levelNote,
+		"Structural clauses of the MapSeq round trip: PAIR.seq (every token kind gets a fresh sequence number that is advanced in the same block; attributes take their index; the child collection skips exactly the attribute and sequence keys), ORDER on the sequence encoder (attributes and children are sorted by sequence number before any write), DECODE.sibling and WALK.arms for the sequence codec, SHAPE.seq (decoder output has the shape the encoder asserts), PANIC.* on both halves, WRAP.compose for BeautifyXml, TAGS.seqprotocol (token-level typestate of the sequence encoder: < name, blank name = quoted value, then either > content </ name > or />, comment / directive / processing-instruction forms; no successful return leaves an open element), TAGS.content (the text entry and the scalar value are written on every path that completes the element, for strings and for the numbers / booleans casting produces), OWN.private (the encoded document is not reachable from package state), SEQ.unwind (every member of a list of same-named children is a sort entry of its own), SEQ.result (the map the decoder returns for an element is written only when the element ends, so nothing collected for it is dropped), SEQ.types (every typed read of a '#seq' entry accepts int and float64), SEQ.leafkeys (every scan of an element's keys sets the same reserved keys aside as the child collection does), TEXT.nonempty (character data is recorded only under a non-emptiness test of the trimmed text that is stored, so indentation never replaces an element's text), RENDER.lossless. Not decided: token-stream equality."+levelNote,
 		nil,
 		ruleTagProtocolSeq, func(p *Prog, r *Report) { ruleTagContent(p, r, "seq") },
 		func(p *Prog, r *Report) {
 			ruleOwnPrivate(p, r, []string{"mxj.MapSeq.Xml", "mxj.MapSeq.XmlIndent", "mxj.BeautifyXml"})
 		},
-		rulePairSeq, ruleSeqUnwind, ruleSeqResult, ruleSeqTypes,
+		rulePairSeq, ruleSeqUnwind, ruleSeqResult, ruleSeqTypes, ruleSeqLeafKeys,
 		func(p *Prog, r *Report) { ruleTextNonEmpty(p, r, []string{"mxj.xmlSeqToMapParser"}) },
 		func(p *Prog, r *Report) { ruleRenderLossless(p, r, []string{"mxj.mapToXmlSeqIndent"}) },
 		func(p *Prog, r *Report) { ruleOrder(p, r, concat(grpSeqEncode, grpBeautify)) },
@@ -147,7 +147,7 @@ func init() {
 		func(p *Prog, r *Report) {
 			ruleWrapCompose(p, r, []wrapSpec{{"mxj.Map.Copy", []string{"mxj.Map.Json", "mxj.NewMapJson"}, false}})
 		},
-		ruleWrapWriter,
+		ruleWrapWriter, ruleJsonListWrap, ruleJsonIdentity,
 		func(p *Prog, r *Report) {
 			ruleErr(p, r, concat(grpJsonEncode, []string{"mxj.NewMapJson", "mxj.NewMapJsonReader", "mxj.NewMapJsonReaderRaw"}), "JSON functions")
 		})
@@ -166,8 +166,15 @@ func init() {
 		},
 		func(p *Prog, r *Report) { ruleWalkProgress(p, r, []string{"mxj.valuesForKeyPath"}) },
 		func(p *Prog, r *Report) { ruleWalkCollect(p, r, []string{"mxj.valuesForKeyPath"}) },
+		func(p *Prog, r *Report) { ruleWalkNoEarlyExit(p, r, []string{"mxj.valuesForKeyPath"}) },
 		func(p *Prog, r *Report) {
 			ruleWalkLastIndex(p, r, p.scopeFuncs(r, "WALK.lastindex", []string{"mxj.Map.ValuesForPath"}))
+		},
+		func(p *Prog, r *Report) {
+			ruleFilterAfterIndex(p, r, p.scopeFuncs(r, "FILTER.afterindex", []string{"mxj.Map.ValuesForPath"}))
+		},
+		func(p *Prog, r *Report) {
+			ruleWalkCurrent(p, r, p.scopeFuncs(r, "WALK.current", []string{"mxj.Map.ValuesForPath"}))
 		},
 		func(p *Prog, r *Report) {
 			ruleAliasReuse(p, r, p.scopeFuncs(r, "ALIAS.reuse", []string{"mxj.Map.ValuesForPath"}))
@@ -188,6 +195,10 @@ func init() {
 			ruleWalkTotal(p, r, []walkerSpec{{"mxj.hasKey", nil}, {"mxj.hasKeyPath", nil}})
 		},
 		func(p *Prog, r *Report) { ruleWalkCollect(p, r, []string{"mxj.hasKey"}) },
+		func(p *Prog, r *Report) { ruleWalkNoEarlyExit(p, r, []string{"mxj.hasKey", "mxj.hasKeyPath", "mxj.valuesForKeyPath"}) },
+		func(p *Prog, r *Report) {
+			ruleFilterAfterIndex(p, r, p.scopeFuncs(r, "FILTER.afterindex", []string{"mxj.Map.ValuesForPath"}))
+		},
 		rulePredLocal,
 		func(p *Prog, r *Report) {
 			in := map[string]bool{}
@@ -213,6 +224,10 @@ func init() {
 			ruleWalkTotal(p, r, []walkerSpec{{"mxj.getLeafNodes", []string{"param:noattr", "load(mxj.attrPrefix)"}}})
 		},
 		ruleWalkLeaf,
+		func(p *Prog, r *Report) { ruleWalkNoEarlyExit(p, r, []string{"mxj.getLeafNodes", "mxj.valuesForKeyPath"}) },
+		func(p *Prog, r *Report) {
+			ruleWalkCurrent(p, r, p.scopeFuncs(r, "WALK.current", []string{"mxj.Map.ValuesForPath"}))
+		},
 		func(p *Prog, r *Report) {
 			ruleWalkLastIndex(p, r, p.scopeFuncs(r, "WALK.lastindex", []string{"mxj.Map.ValuesForPath"}))
 		},
@@ -239,6 +254,9 @@ func init() {
 		"Structural clauses of UpdateValuesForPath: PAIR.update (writes only under the update key or the last segment tested equal to it; the stored value is the new value or a list rebuilt from old members and the new value; per block the counter increments equal the replacements; the rebuilt list is stored only when something was replaced; the sub-key conditions guarding a write are evaluated on the node that is written), PRESENCE.commaok (a member holding null under the key is present), WALK.progress (one segment per recursion, hand-over to the leaf function exactly at the last segment), INFL.filter, INFL.cover (new-value strings are split on fieldSep). Not decided: that navigation addresses the same nodes as ValuesForPath; the post-state query clause."+levelNote,
 		nil,
 		rulePairUpdate,
+		func(p *Prog, r *Report) { ruleWalkNoEarlyExit(p, r, []string{"mxj.updateValuesForKeyPath", "mxj.updateValue"}) },
+		rulePredLocal,
+		func(p *Prog, r *Report) { rulePathWhole(p, r, "mxj.Map.UpdateValuesForPath") },
 		func(p *Prog, r *Report) { ruleWalkReentry(p, r, p.scopeFuncs(r, "WALK.reentry", []string{"mxj.Map.UpdateValuesForPath"})) },
 		func(p *Prog, r *Report) {
 			in := map[string]bool{}
